@@ -228,6 +228,30 @@ var c09Derive = []string{
 	"h.groupByEqual(x->x%3)",
 	"h.replaceList(l->l.append(v))",
 	"h.compact((p,q)->p=q)",
+	"h.top(i).append(v)",
+	"h.skip(i).append(v)",
+	"h.reverse().append(v)",
+	"h.eval().append(v)",
+	"h.map(x->x).eval().set(i%3, v)",
+	"h.order(x->x).top(i)",
+	"h.orderRev(x->x)",
+	"h.append(v).reverse()",
+	"h.top(i)+g.skip(i)",
+	"(h+g).append(v)",
+	"h.number((n,x)->[n,x])",
+	"h.map(x->[x,v])",
+	"h.map(x->{e:x,w:[x,v]})",
+	"h.combine3((p,q,r)->p+q+r)",
+	"h.iirCombine(x->x, (a,b,l)->b-a+l)",
+	"h.fsm((s,x)->goto((s.state+1)%2)).map(s->s.state)",
+	"h.movingWindowRemove(l->l.size()>2)",
+	"h.multiUse({s: l->l.top(3), n: l->l.size()}).s",
+	"h.map(x->\"k\"+x%3).map(s->s.split(\"k\"))",
+	"h.binning(0,2,3,x->x,x->1).values",
+	"h.visit([], (acc,x)->acc.append(x))",
+	"h.mapReduce([v], (acc,x)->acc.append(x))",
+	"h.reduce((p,q)->p+q)",
+	"g.indexWhere(x->x>v)",
 }
 var c09DeriveMap = []string{
 	"m.put(\"n\"+v, v)",
@@ -243,6 +267,11 @@ var c09DeriveMap = []string{
 	"m.accept((k,x)->k!=\"k0\")",
 	"(m+{w:v}).accept((k,x)->k!=\"w\")",
 	"m.eval()",
+	"m.replaceMap(x->x.put(\"rm\"+v, v))",
+	"m.combine({k0:v, yy:i}, (a,b)->a+b)",
+	"m.put(\"l\", [v, i]).put(\"mm\", {z:v})",
+	"m.replace(x->{k0:v}).replace(x->{k1:i})",
+	"m.map((k,x)->[x,v])",
 }
 
 func genC09(r *rng, tier string) *Case {
